@@ -8,6 +8,66 @@ PY = "/venv/bin/python"
 
 # property -> (claimed?, technique, level text, level note, design ref)
 CHECKS = {
+    "C01": dict(
+        technique="Lean 4 proof: resume exactness of the single-process iterator for every sampler/dataset kind, every k, chains and following epochs (TDV.SP.resume_*), and schedule independence / snapshot bookkeeping of the multi-process protocol (TDV.MP.*); differential (SP) and trace-validation (MP) correspondence; every-position resume oracle on the real loader",
+        text="TDV.SP.resume_exact_map/_iter/_ffwd, resume_chain_*, resume_epochs*, sampler and dataset laws (README dataset included as an instance), with the shared-generator exception refuted and excluded explicitly (known finding). TDV.MP.deterministic, snapshot_fields_map, take_snapshot_assertion_holds_map for every action sequence of the worker/main protocol. The MP constructor path (restore_ideal / snapshot_sound for iterable datasets with retirement) is NOT yet a theorem: there the claim rests on the oracle, which resumes at every interruption position of two epochs for generated configurations (all dataset kinds incl. the README dataset, uneven/empty shards, every snapshot interval, persistent workers, virtual worker processes under adversarial schedules) and on chains of resumes.",
+        note="Partial: MP resume exactness is proved only up to the protocol bookkeeping (schedule independence, snapshot fields); the restore path of the multi-process iterator is covered by the correspondence and the oracle, not by a theorem. Trusted: Lean kernel + standard axioms; datasets/samplers as parameters with stated laws; torch RNG abstract; virtual processes stand for OS processes.",
+        ref="DESIGN.md §7 C01",
+    ),
+    "C03": dict(
+        technique="Lean 4 proof: SP stream = reference chunking for all epochs; MP yields are a prefix of the round-robin reference in every reachable state and complete at stop (invariants I1-I4 by induction over action sequences) + correspondence + equality with torch.utils.data.DataLoader on the real code",
+        text="TDV.SP.stream_eq_ref_*; TDV.MP.yields_prefix_ref(_map/_iter), epoch_complete(_map/_iter), progress_map/variant_map: for every W, prefetch factor, shard layout (empty/uneven) and every schedule the batches yielded are exactly Ref.interleave / Ref.chunk, each once. Tie: SP K-D, MP K-T (real _worker_loop under the virtual scheduler). Oracle: StatefulDataLoader vs torch DataLoader batch-for-batch over generated configurations and schedule policies; shuffle exactly-once; in_order=False multisets.",
+        note="Trusted: Lean kernel + standard axioms; in_order=False is covered by the oracle only (the model theorem assumes in_order); torch's DataLoader is the reference implementation for `DataLoader order`.",
+        ref="DESIGN.md §7 C03",
+    ),
+    "C05": dict(
+        technique="Lean 4 proof: determinism of the multi-process protocol over all action sequences (yields and snapshot fields are functions of the number of yields only) + trace validation of the real iterator under permuted worker schedules",
+        text="TDV.MP.deterministic(_map/_iter), snapshot_fields_map, yields_prefix_ref: two runs of the same configuration under any two schedules yield the same batches; the (snapshot_step, steps_since_snapshot, last_yielded_worker_id) returned after the n-th yield depend on n only. Tie: K-T. Oracle: the same configuration under 4 schedule policies incl. starved workers, adversarial timeouts and delayed queue serialisation: identical yields, identical state_dict content at every position, identical continuation.",
+        note="Trusted: Lean kernel + standard axioms; worker state content (delta_at_yield for iterable datasets) is covered by the oracle's state-content comparison and C07, not yet by an MP theorem.",
+        ref="DESIGN.md §7 C05",
+    ),
+    "C06": dict(
+        technique="Lean 4 proof: invariant of the Prefetcher / ParallelMapper thread protocols over every interleaving (snapshot store versions, steps counter) giving a closed form of the checkpoint in the number of delivered items + trace validation of the real threads",
+        text="TDV.PF.state_tracks_consumer / state_closed_form_everywhere (and PM counterpart): in every reachable state with the consumer outside next(), (snapshot, steps_since_snapshot) = (source state after f*floor(m/f), m - that) for m delivered items - never the reader's position. Tie: traces of the real reader/consumer threads under random and adversarial-timeout schedules are replayed through the model (K-T). Oracle: state_dict at every consumer position resumed into a fresh node.",
+        note="Trusted: Lean kernel + standard axioms; virtual scheduler as the lens on the real threads; source states assumed truthy (a falsy source state is never stored by `_populate_queue`, documented).",
+        ref="DESIGN.md §7 C06",
+    ),
+    "C09": dict(
+        technique="Lean 4 proof on the protocol model with kill actions (safety of yields, detection enabledness) + fault enumeration of virtual SIGKILLs at every switch point of the real worker loop",
+        text="TDV.MP.kill_safe(_map), kill_detected: with any number of worker deaths the yields stay a prefix of the reference and stop is never returned while a task of a dead unretired worker is outstanding; a consumer waiting on a dead worker's task has the liveness-poll action enabled, which raises. Oracle: kill worker w at its n-th switch point (start-up, idle, after get, mid-fetch, before/after put): outcome is prefix+RuntimeError or a complete epoch, never hang/early stop/wrong data; a checkpoint taken before the death resumes correctly.",
+        note="Partial: SIGCHLD-driven detection, pipe corruption by a kill mid-write and real latency are OS behaviour outside the model and the virtual scheduler (bounded time is a bounded number of poll steps in virtual time).",
+        ref="DESIGN.md §7 C09",
+    ),
+    "C10": dict(
+        technique="Lean 4 proof: error position theorems for the single-process iterator and the multi-process protocol (with the refuted full statement for snapshot intervals > 1) + correspondence + catch-and-continue oracle",
+        text="TDV.SP.error_position_map/_iter_*, TDV.MP.error_position_partial_map, error_position_prefix_iter, error_position_statement_false (AssertionError after an error with snapshot_every_n_steps > 1 = known finding). Oracle: failing items / collate / worker_init_fn under all worker counts and schedules, expected sequence derived from the documentation.",
+        note="Trusted: Lean kernel + standard axioms; generator-based iterable datasets die on their first exception (Python semantics) and are excluded from the reference.",
+        ref="DESIGN.md §7 C10",
+    ),
+    "C11": dict(
+        technique="Lean 4 proof: progress + variant (termination of next() under fairness) and error-after-prefix for the Prefetcher protocol; for ParallelMapper the full progress statement is refuted on two stuck states and proved outside them + trace validation + hang detection in virtual time",
+        text="TDV.PF.progress, variant, error_after_prefix, terminal_surfaced, next_after_end_prompt; PM.progress_partial with decided stuck-state witnesses (next() after a source error; process worker death) = known findings. Oracle: N extra next() calls after a failure or the end, never exceeding the virtual-time budget except the known findings.",
+        note="Partial: real wall-clock latency is not modelled; a hang is an exactly stuck or budget-exceeding state in virtual time.",
+        ref="DESIGN.md §7 C11",
+    ),
+    "C12": dict(
+        technique="Lean 4 proof: semaphore accounting invariant (permits + held + taken-not-released = max) over every interleaving; single-driver refuted when timed joins give up, proved otherwise + trace validation + probes at every scheduler switch point",
+        text="TDV.PF.readahead_bound, held_le, release_never_overflows, single_driver_partial with two_drivers_witness / single_driver_statement_false (known finding), PM.readahead_bound. Oracle: instrumented sources (pull count, concurrent entries) probed at every switch point, slow sources in virtual time across reset().",
+        note="Trusted: Lean kernel + standard axioms; pin_memory nodes are not modelled.",
+        ref="DESIGN.md §7 C12",
+    ),
+    "C16": dict(
+        technique="decision-logic theorems of the iterator constructors (Lean) + exhaustive pair enumeration on the real loader",
+        text="All 20 ordered (saving, loading) num_workers pairs in 0..4 at several interruption points and all dataset kinds: a mismatching state is rejected before any data, {} is a no-op, no virtual worker survives the rejection, and a valid state loaded afterwards works. The Lean side covers the protocol and constructor models used by C01/C03; the rejection itself is a finite decision table checked exhaustively on the real code.",
+        note="Partial: the rejection is implemented with `assert` (disappears under python -O); worker clean-up after the rejected construction relies on CPython reference counting - checked on the virtual process table, not proved.",
+        ref="DESIGN.md §7 C16",
+    ),
+    "C17": dict(
+        technique="Lean 4 proof: release of the reader thread within a bounded number of its own steps after shutdown (rank function) for every history; virtual thread/process table after every history step on the real code",
+        text="TDV.PF.released, stop_stable, reader_never_stuck, released_without_consumer (and PM counterpart). Oracle: histories of exhaustion / del / reset / load on nodes pipelines (old generation exits within 5 virtual seconds) and of full/partial epochs, abandon+collect, load, new loader on the StatefulDataLoader with persistent and non-persistent workers (no accumulation, persistent workers reused).",
+        note="Partial: real OS thread/process exit and queued-item memory are runtime facts outside the model; virtual tables stand for threading.enumerate() / active_children().",
+        ref="DESIGN.md §7 C17",
+    ),
     "C02": dict(
         technique="Lean 4 proof: every nodes combinator preserves `Lawful` (bisimulation congruence per operator; induction over the pipeline), Loader.resume_exact on top + differential correspondence of real pipelines against the model",
         text="TDV.Node.*_lawful / built_lawful: for every pipeline built from the operator set, state_dict is transparent and loading the state taken at any reachable point into any (also freshly built) pipeline is bisimilar to continuing - hence equal items for the rest of the epoch, later epochs and further checkpoint/resume chains, for every source length, batch size, snapshot_frequency (0 included) and item value (None included). Unbatcher / Prefetcher / ParallelMapper (sequential abstraction justified by the PF/PM protocol theorems) are proved for pipelines that never raise; the unrestricted statements are refuted in Lean on two pipelines whose checkpoint is taken after an exception (outside the property: it quantifies over checkpoints after k items). TDV.Loader.resume_exact lifts it through Loader/LoaderIterator. Tie: random pipelines x op lists through the real operators and the model driver on every run; oracle: every k of every epoch, chains, on the real operators (threads under the virtual scheduler).",
